@@ -7,7 +7,10 @@ slice_bytes_denominator gives some or all slices 0 or 1 bytes (a 0-byte slice
 makes the (de)serialiser open a bounded block of *negative* length), HQ
 pictures and fragments whose slice length fields are 0 or whose
 slice_size_scaler is 0 (zero-length blocks), for several slice grids,
-transform depths and stream versions.
+transform depths and stream versions; bounded blocks with more than 8192
+unused bits whose only non-zero bits lie late in the block (HQ scaler 8..64 x
+length 128..255, LD slices of 1100..2047 bytes); streams of two or three
+sequences in which a later sequence starts with a corrupted parse_info prefix.
 
 Everything here is written with this module's own bit packer straight from
 the syntax of the standard (10.5, 11, 12, 13.5, 14): **no repository code is
@@ -240,6 +243,142 @@ def hq_picture_stream(rng, version, w, h, wavelet, depth, depth_ho, sx, sy, pref
     return join(units)
 
 
+def _tail(b, rng, n, mode):
+    """n unused bits of a bounded block"""
+    if n <= 0:
+        return
+    if mode == "random":
+        for _ in range(n):
+            b.bit(rng.randrange(2))
+    elif mode == "ones":
+        for _ in range(n):
+            b.bit(1)
+    elif mode == "last16":
+        for _ in range(max(0, n - 16)):
+            b.bit(0)
+        b.nbits(min(16, n), 0xBEEF & ((1 << min(16, n)) - 1))
+    elif mode == "lastbit":
+        for _ in range(n - 1):
+            b.bit(0)
+        b.bit(1)
+    else:  # "mid": a few bits set somewhere after the first 8192
+        lo = min(n - 1, 8192)
+        on = set(rng.randrange(lo, n) for _ in range(3)) | {lo}
+        for i in range(n):
+            b.bit(i in on)
+
+
+def _block(b, rng, nbits, ncoeffs, mode):
+    """a bounded block: ncoeffs zero coefficients (one 1-bit each), then unused bits"""
+    used = min(nbits, ncoeffs)
+    for _ in range(used):
+        b.bit(1)
+    _tail(b, rng, nbits - used, mode)
+
+
+def hq_long_tail_stream(rng, sx, scaler, lengths, mode, prefix=0):
+    """8x8 4:4:4, no transform: 64 coefficients per component, split over sx slices"""
+    units = [(0x00, sequence_header_payload(2, 3, 8, 8))]
+    b = Bits()
+    b.nbits(32, 0)
+    transform_parameters(b, 2, 3, 0, 0, sx, 1, hq=(prefix, scaler))
+    b.align()
+    for _ in range(sx):
+        b.raw(bytes(rng.randrange(256) for _ in range(prefix)))
+        b.nbits(8, rng.randrange(256))
+        for n in lengths:
+            b.nbits(8, n)
+            _block(b, rng, 8 * n * scaler, 64 // sx, mode)
+    units.append((0xE8, b.tobytes()))
+    units.append((0x10, b""))
+    return join(units)
+
+
+def ld_long_tail_stream(rng, num, ymode, mode):
+    """one slice of `num` bytes, 64 + 128 coefficients"""
+    units = [(0x00, sequence_header_payload(1, 0, 8, 8))]
+    b = Bits()
+    b.nbits(32, 0)
+    transform_parameters(b, 1, 3, 0, 0, 1, 1, ld=(num, 1))
+    b.align()
+    total = 8 * num
+    lb = intlog2(total - 7)
+    left = total - 7 - lb
+    y = {"all": left, "half": left // 2, "none": 0}[ymode]
+    b.nbits(7, rng.randrange(128))
+    b.nbits(lb, y)
+    _block(b, rng, y, 64, mode)
+    _block(b, rng, left - y, 128, mode)
+    units.append((0xC8, b.tobytes()))
+    units.append((0x10, b""))
+    return join(units)
+
+
+def long_tail_streams():
+    """bounded blocks with more than 8192 unused bits whose non-zero bits lie late"""
+    out = []
+    i = 0
+    for sx, scaler, lengths in [(1, 8, (255, 0, 0)), (1, 8, (0, 255, 130)), (2, 16, (128, 0, 70)), (1, 33, (0, 0, 128)),
+                                (1, 64, (128, 0, 0)), (2, 9, (200, 200, 200))]:
+        for mode in ("last16", "lastbit", "mid", "random", "ones"):
+            i += 1
+            if i % 2 and mode in ("random", "ones"):
+                continue
+            if scaler >= 33 and mode not in ("last16", "mid"):
+                continue
+            rng = random.Random("degenerate/hq-long/%d" % i)
+            out.append(("hq-longtail-%dx1-scaler%d-len%s-%s" % (sx, scaler, "_".join(map(str, lengths)), mode),
+                        hq_long_tail_stream(rng, sx, scaler, lengths, mode, prefix=i % 2)))
+    j = 0
+    for num in (1100, 1500, 2047):
+        for ymode in ("all", "half", "none"):
+            for mode in ("last16", "lastbit", "mid", "random"):
+                j += 1
+                if j % 3 != 1 and mode != "last16":
+                    continue
+                rng = random.Random("degenerate/ld-long/%d" % j)
+                out.append(("ld-longtail-%dbytes-y%s-%s" % (num, ymode, mode), ld_long_tail_stream(rng, num, ymode, mode)))
+    return out
+
+
+def _corrupt_prefix(stream, how, rng):
+    b = bytearray(stream)
+    if how == "zero":
+        b[0:4] = bytes(4)
+    elif how == "flip":
+        b[rng.randrange(4)] ^= 1 << rng.randrange(8)
+    elif how == "ones":
+        b[0:4] = b"\xff" * 4
+    else:  # last byte only
+        b[3] ^= 0x01
+    return bytes(b)
+
+
+def bad_prefix_sequence_streams(base):
+    """several sequences; the second / third starts with a corrupted parse_info
+    prefix, everything else (offsets, payloads) intact"""
+    out = []
+    singles = [(l, d) for l, d in base if len(d) < 400]
+    hows = ["zero", "flip", "ones", "lsb"]
+    for i in range(12):
+        rng = random.Random("degenerate/badprefix/%d" % i)
+        a = singles[(7 * i) % len(singles)][1]
+        b_ = singles[(11 * i + 3) % len(singles)][1]
+        c = singles[(13 * i + 5) % len(singles)][1]
+        how = hows[i % 4]
+        if i % 3 == 0:
+            data = a + _corrupt_prefix(b_, how, rng)
+            label = "2seq-second-prefix-%s-%d" % (how, i)
+        elif i % 3 == 1:
+            data = a + b_ + _corrupt_prefix(c, how, rng)
+            label = "3seq-third-prefix-%s-%d" % (how, i)
+        else:
+            data = a + _corrupt_prefix(b_, how, rng) + _corrupt_prefix(c, hows[(i + 1) % 4], rng)
+            label = "3seq-second+third-prefix-%s-%d" % (how, i)
+        out.append((label, data))
+    return out
+
+
 def degenerate_streams():
     """-> list of (label, bytes); deterministic, cached per process"""
     if _CACHE:
@@ -298,5 +437,7 @@ def degenerate_streams():
                 add("hq-frag-%dx%d-prefix%d-scaler%d-%s-per%d" % (sx, sy, prefix, scaler, mode, per),
                     fragment_stream(rng, False, 8, 8, [4, 1][m % 2], m % 2, 0, sx, sy, per, prefix=prefix,
                                     scaler=scaler, hq_mode=mode))
+    out.extend(bad_prefix_sequence_streams(list(out)))
+    out.extend(long_tail_streams())
     _CACHE.extend(out)
     return list(out)
